@@ -124,6 +124,7 @@ def w_ambient(ctx, rng, idx):
         probe.S.busy = 0
         probe.S.depth = 0
         del probe.S.targets[:]
+        del probe.S.apis[:]
         ctx.events['ambient_outer_routine_raised:%d:%s' % (kind, type(e).__name__)] += 1
 
 
